@@ -3,7 +3,7 @@
    statements as Definitions where only a part is proved, and non-vacuity Examples.
    Model: C14/Model.v (tied to /repo/systems/pbkvs/pbkvs.go by the correspondence check, ./check C14). *)
 From Coq Require Import List String.
-From PGV Require Import C14.Model C14.Corr C14.Witness C14.Proofs C14.ProofsFF C14.ProofsLin C14.ProofsCrashC C14.ProofsLinFF C14.ProofsAssertFF.
+From PGV Require Import C14.Model C14.Corr C14.Witness C14.Proofs C14.ProofsFF C14.ProofsLin C14.ProofsCrashC C14.ProofsLinFF C14.ProofsAssertFF C14.ProofsLinCrash.
 Import ListNotations.
 
 (* ---------------------------------------------------------------- full statements *)
@@ -60,6 +60,45 @@ Theorem pb_linearizable_failure_free_partial : forall cfg input evs s,
   exec cfg (init cfg input) evs = Some s -> linearizable (hist s).
 Proof. exact linearizable_failure_free_lemma. Qed.
 Print Assumptions pb_linearizable_failure_free_partial.
+
+(* linearizability WITH crashes, as long as no client re-sends a request: in every execution - any number of replicas,
+   clients, keys and operations, every interleaving, every either/CHOOSE resolution, every sequence of crash-stops
+   through the spec's mayFail (the primary in the middle of replication, a new primary in the middle of its failover
+   sync, ...) - in which no client ever takes the time-out branch of rcvResp (`no_resend`: no committed step of a
+   client at rcvResp with the `fd[replica] /\ Len = 0` alternative; a client whose primary crashed then simply waits
+   forever), the history is linearizable.  A Get is linearized at the leader's handlePrimary, a Put at the first step
+   after which every live replica holds it (never, if it is lost with the replicas that had it).
+   This is the analogue of C09's linearizable_without_retry; the hypothesis is slightly stronger than "no request is
+   applied twice" (it also excludes harmless re-sends of requests that were lost).  Without the hypothesis the
+   statement is false (pb_linearizable_refuted below). *)
+Theorem pb_linearizable_no_retry_partial : forall cfg input evs s,
+  Forall input_ok input -> exec cfg (init cfg input) evs = Some s -> no_resend cfg (init cfg input) evs ->
+  linearizable (hist s).
+Proof. exact linearizable_no_resend_lemma. Qed.
+Print Assumptions pb_linearizable_no_retry_partial.
+
+(* non-vacuity of the hypothesis with crashes: an execution observed on the Go code (corpus/C14/failover_family.json #2):
+   the primary crashes in the middle of replicating a Put, replica 2 takes over, synchronises replica 3 and answers
+   three Gets of the other client; no client re-sends; 4 operations complete, the crashed primary's Put stays pending *)
+Example no_retry_nonvacuous :
+  match exec nr_cfg (init nr_cfg nr_input) nr_evs with
+  | Some s => no_resend nr_cfg (init nr_cfg nr_input) nr_evs /\ r_pc (rl s 1) = RDone /\ r_pc (rl s 2) = ReplicaLoop /\
+              List.length (hist s) = 10 /\ fsv s 3 "KEY1"%string = "A"%string
+  | None => False
+  end.
+Proof.
+  assert (H : match exec nr_cfg (init nr_cfg nr_input) nr_evs with
+              | Some s => (no_resend_b nr_cfg (init nr_cfg nr_input) nr_evs &&
+                           (match r_pc (rl s 1), r_pc (rl s 2) with RDone, ReplicaLoop => true | _, _ => false end) &&
+                           Nat.eqb (List.length (hist s)) 10 && String.eqb (fsv s 3 "KEY1") "A")%bool
+              | None => false end = true) by (vm_compute; reflexivity).
+  destruct (exec nr_cfg (init nr_cfg nr_input) nr_evs) as [s|]; [|discriminate H].
+  apply Bool.andb_true_iff in H. destruct H as [H H4]. apply Bool.andb_true_iff in H. destruct H as [H H3].
+  apply Bool.andb_true_iff in H. destruct H as [H1 H2].
+  split; [apply no_resend_b_sound; exact H1|].
+  destruct (r_pc (rl s 1)); try discriminate H2. destruct (r_pc (rl s 2)); try discriminate H2.
+  apply PeanoNat.Nat.eqb_eq in H3. apply String.eqb_eq in H4. auto.
+Qed.
 
 (* assertion-freedom when no replica crashes: in every state of every execution without a crash, no enabled
    step of any process fails an assertion or a TLA+ evaluation (any numbers of replicas, clients, keys, operations).
